@@ -11,7 +11,8 @@
      script   = [(dur, tokens)] ; the error tree in prefix form: (0,[]) permanent, (1,[d]) throttle,
                 (2, sig :: rem) partial, (3,[]) shutdown error, (4,[]) fmt wrap — each followed by what it
                 wraps; (5,[n]) a combination followed by its n members; (6,[]) the base error (may be
-                omitted at the very end) ; (9,[]) alone = success
+                omitted at the very end) ; (7,[is_any; perm; shutdown; throttle; partial_signal; rem..]) an error type
+                with its own As/Is methods, followed by what it wraps ; (9,[]) alone = success
      attempts = observed calls of the exporter function: (item ids, deadline class)
                 class 0 none, 1 = the caller's deadline, 2 = start + timeout
      delays   = the back-off delays logged by retrySender ("interval"), in order
@@ -65,6 +66,17 @@ Fixpoint parse_err (fuel : nat) (ts : list (Z * list Z)) : option (err * list (Z
       else if code =? 5 then
         match parse_members (parse_err f) (Z.to_nat (nth 0%nat args 0)) r with
         | Some (es, r') => Some (EJoin es, r')
+        | None => None
+        end
+      else if code =? 7 then
+        (* custom error type: args = [is_any; perm; shutdown; throttle; partial_signal (-1 none); rem...] *)
+        match parse_err f r with
+        | Some (e, r') =>
+          let b i := negb (nth i args 0 =? 0) in
+          let ls := (if b 1%nat then [LPerm] else []) ++ (if b 2%nat then [LShutdown] else []) ++
+                    (if b 3%nat then [LThrottle 0] else []) ++
+                    (if nth 4%nat args (-1) <? 0 then [] else [LPartial (signal_of_Z (nth 4%nat args 0)) (skipn 5 args)]) in
+          Some (ECustom ls (b 0%nat) e, r')
         | None => None
         end
       else match parse_err f r with
